@@ -641,13 +641,56 @@ fn run_history(
             bump("deep_check");
             let d = dump_hash(&mut live);
             if d != st.pristine_dump {
-                violation = Some(Violation {
-                    clause: "database-changed".into(),
-                    detail: format!(
-                        "after the history the Debug dump of the context (clock/ans/flag normalised) differs from a pristine context's: {} bytes hash {:016x} vs {} bytes hash {:016x}",
-                        d.1, d.0, st.pristine_dump.1, st.pristine_dump.0
-                    ),
-                });
+                // The representation differs from a pristine context's. That alone is
+                // not a violation (a lazily built index or a correct cache is allowed):
+                // what the property forbids is a different *answer*. So the context is
+                // now questioned: a fixed battery plus every query of this history, with
+                // ans unset and a fixed clock, against a brand-new process.
+                bump("context_dump_differs_from_pristine");
+                let mut questions: Vec<String> = BATTERY.iter().map(|q| q.to_string()).collect();
+                for st in &sc.steps {
+                    if let Step::Query(q) = st {
+                        if !questions.contains(q) {
+                            questions.push(q.clone());
+                        }
+                    }
+                }
+                let when = sc.start_ms;
+                let items: Vec<ProbeItem> = questions
+                    .iter()
+                    .map(|q| ProbeItem {
+                        alts: vec![serde_json::Value::Null],
+                        now_ms: when,
+                        flag: false,
+                        line: q.clone(),
+                    })
+                    .collect();
+                let fresh: Vec<Rendered> = match fresh_process_eval(&items) {
+                    Some(r) => r.into_iter().map(|mut v| v.remove(0)).collect(),
+                    None => {
+                        let mut p = fresh_context();
+                        questions
+                            .iter()
+                            .map(|q| render(&eval_preset(&mut p, &None, false, at(when), q)))
+                            .collect()
+                    }
+                };
+                for (q, want) in questions.iter().zip(fresh.iter()) {
+                    let got = render(&eval_preset(&mut live, &None, false, at(when), q));
+                    if got != *want {
+                        violation = Some(Violation {
+                            clause: "database-changed".into(),
+                            detail: format!(
+                                "after the history the context differs from a pristine one (Debug dump {} bytes hash {:016x} vs {} bytes hash {:016x}) and answers differently: {:?} -> {:?}, a brand-new process answers {:?}",
+                                d.1, d.0, st.pristine_dump.1, st.pristine_dump.0, q, short(&got.1), short(&want.1)
+                            ),
+                        });
+                        break;
+                    }
+                }
+                if violation.is_none() {
+                    bump("representation_differs_but_answers_agree");
+                }
             }
         }
         (violation, history, digest.0)
@@ -661,6 +704,32 @@ pub struct C15;
 fn uniq(rng: &mut Rng, i: usize) -> u64 {
     (i as u64 + 1) * 1000 + rng.below(900) + 1
 }
+
+/// Questions put to a context whose dump differs from a pristine one.
+const BATTERY: [&str; 22] = [
+    "foot",
+    "3 foot -> meter",
+    "kilogram",
+    "search feet",
+    "search kilogarm",
+    "units for energy",
+    "1 USD -> EUR",
+    "water",
+    "now",
+    "#2000-01-01#",
+    "ans",
+    "_",
+    "zzz",
+    "kilogarm",
+    "1 m + 1 s",
+    "pi",
+    "c",
+    "12 hours",
+    "100 km/hour -> mph",
+    "factorize velocity",
+    "gallon -> liter",
+    "5 degC -> degF",
+];
 
 /// Identifiers shared by several query kinds, so that different code paths
 /// (evaluation, error suggestions, search, units-for, conversions) meet the
